@@ -1508,6 +1508,49 @@ def _images_part(tree, out, spans):
     if len(fb) != k + 6:
         raise Unsupported('create_affine_matrix_from_attributes: extra statements')
     spans += fb[k:]
+    # ---- get_normal_vector defaults (what _are_images_coplanar gets: it passes the orientation only), _is_matrix_orthogonal and its callers
+    fnv = find_func(tree, 'get_normal_vector')
+    dd = _defaults(fnv)
+    if set(dd) != {'index_convention', 'handedness'}:
+        raise Unsupported(f'get_normal_vector: optional parameters {sorted(dd)}')
+    out.append('/-- defaults of get_normal_vector -/\n'
+               f'def normalDefaultConvention : List Char := {_conv(dd["index_convention"], fnv.name)}\n'
+               f'def normalDefaultRightHanded : Bool := {_handed(dd["handedness"], fnv.name)}')
+    spans.append(fnv.args)
+    fo = find_func(tree, '_is_matrix_orthogonal')
+    dd = _defaults(fo)
+    if set(dd) != {'require_unit', 'tol'} or ast.unparse(dd['tol']) != '_DEFAULT_EQUALITY_TOLERANCE':
+        raise Unsupported(f'_is_matrix_orthogonal: defaults {[(k, ast.unparse(v)) for k, v in dd.items()]}')
+    out.append(f'/-- default of `require_unit` of _is_matrix_orthogonal (its tolerance defaults to _DEFAULT_EQUALITY_TOLERANCE) -/\n'
+               f'def orthogonalDefaultRequireUnit : Bool := {_boolc(dd["require_unit"], fo.name)}')
+    ob = strip_doc(fo.body)
+    want = ["if m.ndim != 2: raise ValueError('Argument \"m\" should be an array with 2 dimensions.')",
+            'if m.shape[0] != m.shape[1]: return False',
+            'norm_squared = (m ** 2).sum(axis=0)',
+            'if require_unit: if not np.allclose(norm_squared, np.array([1.0, 1.0, 1.0]), atol=tol): return False',
+            'return np.allclose(m.T @ m, np.diag(norm_squared), atol=tol)']
+    got = [_src(x) for x in ob]
+    if got != want:
+        raise Unsupported('_is_matrix_orthogonal changed: ' + ' | '.join(g for g, w in zip(got, want) if g != w)[:300])
+    spans.append(fo)
+
+    def ortho_call(fn_name, lean):
+        f_ = find_func(tree, fn_name)
+        tests = [n for n in ast.walk(f_) if isinstance(n, ast.If) and '_is_matrix_orthogonal(' in _src(n.test)]
+        t_ = _one(tests, f'{fn_name}: orthogonality test')
+        if not (isinstance(t_.test, ast.UnaryOp) and isinstance(t_.test.op, ast.Not) and isinstance(t_.body[0], ast.Raise)
+                and ast.unparse(t_.body[0].exc.func) == 'ValueError'):
+            raise Unsupported(f'{fn_name}: a non-orthogonal matrix is no longer a ValueError')
+        call = t_.test.operand
+        kws = {k.arg: k.value for k in call.keywords}
+        if len(call.args) != 1 or set(kws) - {'require_unit'}:
+            raise Unsupported(f'{fn_name}: {_src(call)}')
+        val = _boolc(kws['require_unit'], fn_name) if 'require_unit' in kws else None
+        out.append(f'/-- `{fn_name}`: `require_unit` it passes to _is_matrix_orthogonal (none = the default) -/\n'
+                   f'def {lean} : Option Bool := {"none" if val is None else "some " + val}')
+        spans.append(t_)
+    ortho_call('get_closest_patient_orientation', 'closestRequireUnit')
+    ortho_call('create_affine_matrix_from_components', 'componentsRequireUnit')
     # ---- get_image_coordinate_system: the attributes that decide, in the order they are looked at
     fn = find_func(tree, 'get_image_coordinate_system')
     body = strip_doc(fn.body)
